@@ -66,7 +66,7 @@ def run_one(chk, name, channel, entries, mixed, maxlen):
 def run(chk, tier, seed):
     th = tier == "thorough"
     nums = [num("1"), num("-2"), num("+3"), num("1.5"), num(".5"), num("2e1"), num("-4.5E-1"), nrange("1", "5"), nrange("-2", "+3"), nrange(".5", "1.5e1"),
-            num("-.5"), num("7."), nrange("+.25e1", "-.75")]      # sign directly before the point; a bare trailing point
+            num("-.5"), num("7."), nrange("+.25e1", "-.75"), num("2.E1"), nrange("-1.e-1", "+3.E+2")]      # sign directly before the point; a bare trailing point; a bare point before the exponent
     chans = [spec("1"), spec("-2"), spec("+3"), spec("12"), spec("1", "2"), spec("3", "-4"), spec("1", "2", "3"),
              rng(["1"], ["3"]), rng(["1", "1"], ["2", "3"]), rng(["1", "2", "3"], ["4", "5", "6"]),
              path("'", "p"), path('"', "a,b"), path("'", "x:y!1")]
